@@ -21,8 +21,13 @@ func init() {
 	})
 }
 
-func runC12(p *Prog, r *Report) {
-	openCountReportRule(p, r)
+func runC12(p *Prog, r *Report) { runC12x(p, r, false) }
+
+// runC12x: openOnly restricts the run to the obligations on Server.open (used by C15: Shutdown waits for open == 0).
+func runC12x(p *Prog, r *Report, openOnly bool) {
+	if !openOnly {
+		openCountReportRule(p, r)
+	}
 	F := func(spec string) *ssa.Function {
 		f := p.Func(spec)
 		if f == nil {
@@ -223,6 +228,9 @@ func runC12(p *Prog, r *Report) {
 		}
 	}
 	// wrapPerIPConn
+	if openOnly {
+		return
+	}
 	run(&pairSpec{what: "wrapPerIPConn keeps one per-IP registration exactly when it returns a per-IP wrapper", fn: fWrap,
 		expect: func(x *Explorer, st *State, ret *ssa.Return) (pairDelta, [4]bool, bool) {
 			rr := returnResults(ret)
